@@ -874,3 +874,20 @@ package httpserver
 //@   ensures [scheme_fixes_a_port_and_never_contradicts_it] result1 == nil ==> ((result0.Scheme == "http" ==> (result0.Port != "" && result0.Port != hsp())) && (result0.Scheme == "https" ==> (result0.Port != "" && result0.Port != hp())))
 //@   ensures [well_known_port_fixes_the_scheme_when_none_was_written] result1 == nil ==> (result0.Scheme == "" ==> (result0.Port != hp() && result0.Port != hsp()))
 //@   ensures [no_address_on_error] result1 != nil ==> result0.Original == ""
+
+//@ unit listener_groups frames=on props=C01,C06 nilchecks=on filter=`httpserver\.groupSiteConfigsByListenAddr$`
+//@ // C01/C06: which sites share a listener. Every store into the group table appends ONE site to the group filed under the
+//@ // resolved address of that very site's listen host and port (a site with no port gets the default port first), so a
+//@ // group holds exactly the sites whose address resolves to its key, in declaration order.
+//@ extern net.JoinHostPort
+//@   pure
+//@ extern net.ResolveTCPAddr
+//@   ensures result1 == nil ==> result0 != nil
+//@ extern (*net.TCPAddr).String
+//@   pure
+//@ func groupSiteConfigsByListenAddr
+//@   requires forall(k, 0, len(configs), configs[k] != nil)
+//@   modifies SiteConfig.Addr, Address.Port, MV:map[string][]*github.com/tmpim/casket/caskethttp/httpserver.SiteConfig, MD:map[string][]*github.com/tmpim/casket/caskethttp/httpserver.SiteConfig, E:*github.com/tmpim/casket/caskethttp/httpserver.SiteConfig
+//@   at call mapupdate:*#1 before [the_site_joins_the_group_of_its_own_resolved_address] arg1 == addr.String() && len(arg2) == len(groups[arg1]) + 1 && arg2[len(arg2)-1] == conf && forall(k, 0, len(groups[arg1]), arg2[k] == groups[arg1][k])
+//@   at call net.ResolveTCPAddr before [resolved_from_the_sites_listen_host_and_port] arg1 == net.JoinHostPort(conf.ListenHost, conf.Addr.Port) && (conf.Addr.Port != "" || Port == "")
+//@   loop 1 invariant forall(k, 0, len(configs), configs[k] != nil)
